@@ -34,6 +34,25 @@ def kw(name):
     return ''.join(c.upper() if SPELL.random() < 0.3 else c for c in name)
 
 
+def pname(name):
+    """a pseudo-class NAME (an identifier token): ASCII case is free, and any letter may be written as a CSS escape - also as the escape
+    of its UPPER-case code point (the name is lower-cased after unescaping)"""
+    if SPELL is None:
+        return name
+    out = []
+    for i, c in enumerate(name):
+        r = SPELL.random()
+        if r < 0.06 and c.isalpha() and not (i == 0 and name.startswith('-')):
+            out.append('\\%x ' % ord(c.upper() if SPELL.random() < 0.6 else c))
+        elif r < 0.09 and c.isalpha() and c not in 'abcdefABCDEF':
+            out.append('\\' + (c.upper() if SPELL.random() < 0.5 else c))
+        elif r < 0.35:
+            out.append(c.upper())
+        else:
+            out.append(c)
+    return ''.join(out)
+
+
 def ows():
     if SPELL is None:
         return ''
@@ -146,30 +165,30 @@ def simple(s):
                 t += (' ' if SPELL is None else SPELL.choice([' ', '\t', '/**/ ', ' /**/', '\n'])) + kw(s['flag'])
         return t + ows() + ']'
     if k in ('not', 'is', 'where', 'matches'):
-        return ':' + kw(k) + '(' + ows() + (ows() + ',' + (' ' if SPELL is None else ows())).join(complex_(c) for c in s['args']) + ows() + ')'
+        return ':' + pname(k) + '(' + ows() + (ows() + ',' + (' ' if SPELL is None else ows())).join(complex_(c) for c in s['args']) + ows() + ')'
     if k == 'has':
-        return ':' + kw('has') + '(' + ows() + (ows() + ',' + (' ' if SPELL is None else ows())).join(
+        return ':' + pname('has') + '(' + ows() + (ows() + ',' + (' ' if SPELL is None else ows())).join(
             ((a['comb'].strip() + (' ' if SPELL is None else ows())) if a['comb'] != ' ' else '') + complex_(a['cx']) for a in s['args']) + ows() + ')'
     if k == 'nth':
-        name = ':' + kw('nth-' + ('last-' if s['last'] else '') + ('of-type' if s['oftype'] else 'child'))
+        name = ':' + pname('nth-' + ('last-' if s['last'] else '') + ('of-type' if s['oftype'] else 'child'))
         t = name + '(' + ows() + (st(s['raw']) if s.get('raw') else nth_text(s['a'], s['b']))
         if s['of']:
             t += rws() + kw('of') + rws() + (ows() + ',' + (' ' if SPELL is None else ows())).join(complex_(c) for c in s['of'])
         return t + ows() + ')'
     if k == 'none':
-        return ':' + kw('hover')
+        return ':' + pname('hover')
     if k == 'amp':
         return '&'
     if k == 'custom':
         return ':' + ident(st(s['name']))
     if k == 'lang':
-        return ':' + kw('lang') + '(' + ows() + (ows() + ',' + (' ' if SPELL is None else ows())).join(string(st(r)) for r in s['ranges']) + ows() + ')'
+        return ':' + pname('lang') + '(' + ows() + (ows() + ',' + (' ' if SPELL is None else ows())).join(string(st(r)) for r in s['ranges']) + ows() + ')'
     if k == 'contains':
-        return ':' + kw('-soup-contains-own' if s['own'] else '-soup-contains') + '(' + ows() + \
+        return ':' + pname('-soup-contains-own' if s['own'] else '-soup-contains') + '(' + ows() + \
             (ows() + ',' + (' ' if SPELL is None else ows())).join(string(st(r)) for r in s['vals']) + ows() + ')'
     if k == 'dir':
-        return ':' + kw('dir') + '(' + ows() + kw(s['d']) + ows() + ')'
-    return ':' + kw(k)
+        return ':' + pname('dir') + '(' + ows() + kw(s['d']) + ows() + ')'
+    return ':' + pname(k)
 
 
 def compound(c):
